@@ -40,7 +40,8 @@ fn case<S: ShortGroupSignatureScheme>(v: &Value) -> Value {
         ClaimSchema { claim_type: ClaimType::Revocation, label: "identifier".into(), print_friendly: false, validators: vec![] },
         ClaimSchema { claim_type: ClaimType::Hashed, label: "name".into(), print_friendly: true, validators: vec![] },
     ];
-    let cs = CredentialSchema::new(Some("s"), None, &[], &schema_claims).unwrap();
+    // (the name is blindable, so that a holder can also obtain its credential by blind issuance)
+    let cs = CredentialSchema::new(Some("s"), None, &["name"], &schema_claims).unwrap();
     let (_ip, mut issuer) = Issuer::<S>::new(&cs);
     // per holder: credential (claims + signature), handle history: (step obtained, witness, registry value then)
     struct H<S: ShortGroupSignatureScheme> {
@@ -67,6 +68,32 @@ fn case<S: ShortGroupSignatureScheme>(v: &Value) -> Value {
                         "ok"
                     }
                     Err(_) => "err",
+                }
+            }
+            "blind" => {
+                // blind issuance: the holder chooses the name, the issuer supplies the identifier
+                let h = o["id"].as_u64().unwrap() as usize;
+                let ipub0 = IssuerPublic::from(&issuer);
+                let mut blind_claims = std::collections::BTreeMap::new();
+                blind_claims.insert("name".to_string(), ClaimData::from(HashedClaim::from(format!("name {h}"))));
+                let mut known = std::collections::BTreeMap::new();
+                known.insert("identifier".to_string(), ClaimData::from(RevocationClaim::from(hid(h as u64))));
+                match credx::blind::BlindCredentialRequest::<S>::new(&ipub0, &blind_claims) {
+                    Err(_) => "err",
+                    Ok((req, blinder)) => match issuer.blind_sign_credential(&req, &known) {
+                        Err(_) => "err",
+                        Ok(bb) => match bb.to_unblinded(&blind_claims, blinder) {
+                            Err(_) => "err",
+                            Ok(b) => {
+                                hs[h].handles.push((si, b.credential.revocation_handle, issuer.revocation_registry.value));
+                                if hs[h].updated.is_none() {
+                                    hs[h].updated = Some((b.credential.revocation_handle, issuer.revocation_registry.value));
+                                }
+                                hs[h].cred = Some(b.credential);
+                                "ok"
+                            }
+                        },
+                    },
                 }
             }
             "revoke" => {
